@@ -801,3 +801,139 @@ func orNothing(s string) string {
 	}
 	return s
 }
+
+// ---------------------------------------------------------------------------
+// R16.7 the value of a let is parsed in the enclosing scope
+//
+// "let x = VALUE; INNER" binds x in INNER only. Inside VALUE the name x still
+// means what it meant outside: an argument, an outer binding - or, in implicit
+// attribute mode, the attribute m.x, where every name is valid. So the parse
+// call that yields the Value of a Let node has to get the scope the function
+// itself was given, unextended; only the parse call for Inner gets a scope
+// that knows the new name.
+
+func ruleR167(c *Ctx) {
+	root := c.Pkg("")
+	if root == nil {
+		c.Undecided("package parser2", token.NoPos, "not found")
+		return
+	}
+	info := root.TypesInfo
+	isScope := func(t types.Type) bool { return isNamed(t, modPath, "Identifiers") }
+	n := 0
+	for _, f := range root.Syntax {
+		for _, d := range f.Decls {
+			fd, ok := d.(*ast.FuncDecl)
+			if !ok || fd.Body == nil {
+				continue
+			}
+			// the scope parameter of the function
+			var scopeParam types.Object
+			if fd.Type.Params != nil {
+				for _, fl := range fd.Type.Params.List {
+					for _, nm := range fl.Names {
+						if isScope(info.TypeOf(nm)) {
+							scopeParam = info.Defs[nm]
+						}
+					}
+				}
+			}
+			k := 0
+			ast.Inspect(fd.Body, func(x ast.Node) bool {
+				cl, ok := x.(*ast.CompositeLit)
+				if !ok || !isNamed(info.TypeOf(cl), modPath, "Let") {
+					return true
+				}
+				var value ast.Expr
+				for _, e := range cl.Elts {
+					if kv, ok := e.(*ast.KeyValueExpr); ok {
+						if id, ok := kv.Key.(*ast.Ident); ok && id.Name == "Value" {
+							value = kv.Value
+						}
+					}
+				}
+				if value == nil {
+					return true
+				}
+				k++
+				n++
+				key := fmt.Sprintf("%s#let-value-scope[%d]", declName(root, fd), k)
+				vid, ok := ast.Unparen(value).(*ast.Ident)
+				if !ok {
+					c.OK(key, cl.Pos(), "the value is built in place")
+					return true
+				}
+				vobj := info.ObjectOf(vid)
+				// the parse calls that define the value: calls with a scope argument
+				var parseCalls []*ast.CallExpr
+				ast.Inspect(fd.Body, func(y ast.Node) bool {
+					as, ok := y.(*ast.AssignStmt)
+					if !ok || len(as.Rhs) != 1 || as.Pos() > cl.Pos() {
+						return true
+					}
+					if id, ok := as.Lhs[0].(*ast.Ident); !ok || info.ObjectOf(id) != vobj {
+						return true
+					}
+					if call, ok := ast.Unparen(as.Rhs[0]).(*ast.CallExpr); ok {
+						for _, a := range call.Args {
+							if isScope(info.TypeOf(a)) {
+								parseCalls = append(parseCalls, call)
+								break
+							}
+						}
+					}
+					return true
+				})
+				if len(parseCalls) == 0 {
+					c.OK(key, cl.Pos(), "the value is not the result of a parse call with a scope (a closure literal built in place)")
+					return true
+				}
+				if scopeParam == nil {
+					c.Undecided(key, cl.Pos(), "the function has no scope parameter")
+					return true
+				}
+				bad := ""
+				for _, call := range parseCalls {
+					for _, a := range call.Args {
+						if !isScope(info.TypeOf(a)) {
+							continue
+						}
+						// the argument has to be the scope parameter itself (or a local with one definition that is it)
+						e := ast.Unparen(a)
+						for depth := 0; depth < 3; depth++ {
+							id, ok := e.(*ast.Ident)
+							if !ok {
+								break
+							}
+							obj := info.ObjectOf(id)
+							if obj == scopeParam {
+								break
+							}
+							if as, i := definingAssign(info, fd, obj); as != nil && len(as.Rhs) == len(as.Lhs) && countAssignments(info, fd, obj) == 1 {
+								e = ast.Unparen(as.Rhs[i])
+								continue
+							}
+							break
+						}
+						if id, ok := e.(*ast.Ident); ok && info.ObjectOf(id) == scopeParam && countAssignments(info, fd, scopeParam) == 0 {
+							continue
+						}
+						bad = nodeStr(c.Fset, a)
+						if id, ok := ast.Unparen(a).(*ast.Ident); ok && countAssignments(info, fd, info.ObjectOf(id)) > 1 {
+							bad += " (assigned more than once: on some path an extended scope)"
+						}
+					}
+				}
+				if bad == "" {
+					c.OK(key, cl.Pos(), "the value of the let is parsed with the scope the function was given")
+				} else {
+					c.Violation(key, cl.Pos(), "the value of a let is parsed with the scope %s instead of the scope of the enclosing code: a name that the let itself (or anything else added to that scope) binds is then resolved inside the value, where it is not in scope - in implicit attribute mode the attribute of that name is shadowed (let a = x -> x + a means m.a), with explicit arguments an outer binding is", bad)
+				}
+				return true
+			})
+		}
+	}
+	if n < 2 {
+		c.Undecided("parser2#let-nodes", token.NoPos, "only %d constructions of Let nodes found", n)
+	}
+}
